@@ -133,6 +133,12 @@ var payloadPool = []payload{
 	{"long-line", []string{strings.Repeat("a: [", 1200)}, false, false},
 	{"backslash", []string{`foo: "bar \`, `  baz\`}, false, false},
 	{"utf8", []string{`{% set msg = "→ done ✓" %}`}, false, false},
+	// last bytes 0x85 / 0xA8 / 0xA9 / 0xA0: the tail of a NEL, LS or PS line break without being one
+	{"utf8-tail", []string{`{{- end }} fin du bloc désactivé`}, false, false},
+	{"utf8-tail", []string{`note: [caf`, `  è`}, false, false},
+	{"utf8-tail", []string{`copyright: "©`}, false, false},
+	{"utf8-tail", []string{`- alert 🚨`}, false, false},
+	{"utf8-tail", []string{`x: ą`, `y: Å`, `z: à`}, false, false},
 	{"utf8", []string{`日本語: [`, `  é: "ü`}, false, false},
 	{"utf8", []string{`- alert: Ünïcödé`, `  expr: up == 0 — nope`}, false, false},
 	{"rule-like", []string{`- alert: Injected`, `  expr: up == 0`}, false, false},
@@ -361,6 +367,10 @@ func genCase(t *rapid.T) Case {
 			c.Payload, c.PintComment = pa.class, pa.pint
 		}
 		c.A, c.B = join(lines[:at], blkA, lines[at:]), join(lines[:at], blkB, lines[at:])
+	}
+	// a file whose last line has no line break (the excluded text may be that last line)
+	if rapid.IntRange(0, 4).Draw(t, "nofinalnl") == 0 && !strings.HasSuffix(c.A, "\n\n") && !strings.HasSuffix(c.B, "\n\n") {
+		c.A, c.B = strings.TrimSuffix(c.A, "\n"), strings.TrimSuffix(c.B, "\n")
 	}
 	return c
 }
